@@ -249,7 +249,7 @@ func runC04(c *ctx, r *Report) error {
 	if !c.quick {
 		maxLen, maxTok, nRand = 5, 4, 400000
 	}
-	r.Rule = fmt.Sprintf("all strings of length ≤ %d over the %d-symbol lexical alphabet %q (followed by }}, and also unterminated), all strings of length ≤ 3 over that alphabet plus %q, all sequences of ≤ %d tokens over %d token representatives joined by single spaces, %d random sentences of the grammar (depth ≤ 6) with random whitespace and random single-token mutations; LexExpression and ExprParser.Parse compared with the model (tokens, offsets, tree, error template + position); non-trivial = distinct sources that lex to ≥ 2 tokens or produce an error other than EOF", maxLen, len(alpha), alpha, extra, maxTok, len(tokReps), nRand)
+	r.Rule = fmt.Sprintf("all strings of length ≤ %d over the %d-symbol lexical alphabet %q (followed by }}, and also unterminated), all strings of length ≤ 3 over that alphabet plus %q, all strings of length ≤ maxLen+1 over the number alphabet 0 1 x X e E . - + a F, all sequences of ≤ %d tokens over %d token representatives joined by single spaces, %d random sentences of the grammar (depth ≤ 6) with random whitespace and random single-token mutations; LexExpression and ExprParser.Parse compared with the model (tokens, offsets, tree, error template + position); non-trivial = distinct sources that lex to ≥ 2 tokens or produce an error other than EOF", maxLen, len(alpha), alpha, extra, maxTok, len(tokReps), nRand)
 	var b batch
 	// AL.Props.C04: parse_iff (the model accepts a token list iff it derives from the documented grammar) and
 	// der_unambiguous / precedence (the tree is the grammar's unique derivation); AL.Props.C04Lex for the lexical forms. A verdict or tree
@@ -339,6 +339,8 @@ func runC04(c *ctx, r *Report) error {
 	}
 	rec("", maxLen, alpha)
 	rec("", 3, append(append([]string{}, alpha...), extra...))
+	// number forms: every string over the characters the number lexer distinguishes, in both letter cases
+	rec("", maxLen+1, []string{"0", "1", "x", "X", "e", "E", ".", "-", "+", "a", "F"})
 	var recTok func(prefix []string, depth int)
 	recTok = func(prefix []string, depth int) {
 		one(strings.Join(prefix, " ") + " }}")
